@@ -19,10 +19,12 @@ fn static_claims() {
     assert_send_sync::<Piece>();
     assert_send_sync::<Direction>();
     assert_send_sync::<Terminal>();
+    // the borrowed iterator over a history list: a scoped worker may continue a scan started elsewhere
+    assert_send_sync::<Iter<'static, Zobrist>>();
 }
 
 
 fn main() {
     static_claims();
-    println!("SENDSYNC ok types=13");
+    println!("SENDSYNC ok types=14");
 }
